@@ -2,7 +2,7 @@ SPECIFICATION Spec
 CONSTANTS
   DEVS <- c_NoDevs
   MAXOPS = 2
-  BASES = {"B0", "B1"}
+  BASES = {"B0", "B1", "B2"}
   CHAINS = {"main", "test"}
   REJBUDGET = 99
 VIEW View
